@@ -60,7 +60,7 @@ def malformed_scripts(rng, tier, n=None):
     n = n or (30 if tier == "quick" else 400)
     for k in range(n):
         ssrc = rng.randrange(2, 1 << 32)
-        p = rand_policy(rng, ssrc=ssrc, valid=True)
+        p, _ = strat_policy(rng, k, ssrc=ssrc, valid=True)
         wild = rng.random() < 0.3
         L = [p.line(1), "create 1 1"]
         if wild:
